@@ -1,14 +1,281 @@
-// Package c19 is the correspondence area of property C19 (stub: the slice is not built yet).
+// Package c19 corresponds WebBridge.ServeHTTP (bridge.go) and webbridge.parseMetadataQuery with
+// the Lean model GB.C19.
+//
+//	disp  a real grpcbridge.NewWebBridge behind httptest, driven by a raw HTTP/1.1 client that
+//	      writes the header lines verbatim; which of the four bridges handled the request is read
+//	      off what only that bridge does: the router method it calls (RouteHTTP / RouteGRPC / none
+//	      before the first frame), whether the `_metadata[…]` entries were stripped from the query
+//	      before routing, the status (101), the negotiated sub-protocol, the response content type.
+//	mdq   parseMetadataQuery through its verif export.
 package c19
 
 import (
+	"fmt"
+	"io"
 	"math/rand"
+	"net/http"
+	"net/http/httptest"
+	"net/url"
+	"strings"
+
+	"github.com/renbou/grpcbridge"
+	"github.com/renbou/grpcbridge/grpcadapter"
+	"github.com/renbou/grpcbridge/webbridge"
+	"google.golang.org/grpc/metadata"
+	"verif/harness/c07/fake"
+	"verif/harness/common"
 )
 
 type Area struct{}
 
 func (Area) Name() string { return "c19" }
 
-func (Area) Exec(input string) string { return "UNIMPLEMENTED" }
+const sentinel = "_metadata[verif-sentinel]"
 
-func (Area) Gen(r *rand.Rand, tier string, emit func(string)) {}
+func (Area) Exec(input string) string {
+	f := strings.Fields(input)
+	switch f[0] {
+	case "mdq":
+		param := string(common.MustUnHex(f[1]))
+		raw := string(common.MustUnHex(f[2]))
+		r := &http.Request{URL: &url.URL{Path: "/x", RawQuery: raw}}
+		q := r.URL.Query()
+		md := webbridge.VerifParseMetadataQuery(r, param)
+		q2 := r.URL.Query()
+		mod := 0
+		if r.URL.RawQuery != raw {
+			mod = 1
+		}
+		return fmt.Sprintf("q=%s md=%s q2=%s mod=%d", fake.ShowMD(q), fake.ShowMD(md), fake.ShowMD(q2), mod)
+	case "disp":
+		return execDisp(f[1], string(common.MustUnHex(f[2])), fake.ParsePairs(f[3]))
+	}
+	return "BADOP"
+}
+
+func execDisp(method, rawQuery string, lines [][2]string) string {
+	tgt := &fake.Target{Header: metadata.MD{}, Trailer: metadata.MD{}, Responses: 1}
+	rt := &fake.Router{Conn: tgt}
+	pf := grpcadapter.NewProxyForwarder(grpcadapter.ProxyForwarderOpts{})
+	bridge := grpcbridge.NewWebBridge(rt, grpcbridge.WithForwarder(pf))
+
+	var seen http.Header
+	var q url.Values
+	srv := httptest.NewServer(http.HandlerFunc(func(w http.ResponseWriter, r *http.Request) {
+		seen = r.Header.Clone()
+		q = r.URL.Query()
+		bridge.ServeHTTP(w, r)
+	}))
+	defer srv.Close()
+	rc, err := fake.Dial(srv.Listener.Addr().String())
+	if err != nil {
+		return "ERR dial"
+	}
+	defer rc.Close()
+
+	target := "/x?" + rawQuery
+	if rawQuery != "" {
+		target += "&"
+	}
+	target += url.QueryEscape(sentinel) + "=1"
+	var body []byte
+	if method == "POST" {
+		body = []byte{0, 0, 0, 0, 0}
+	}
+	if err := rc.WriteRequest(method, target, lines, body); err != nil {
+		return "ERR write"
+	}
+	resp, err := rc.ReadResponse(method)
+	if err != nil {
+		return "ERR read " + common.HexS(err.Error())
+	}
+	sp := "-"
+	if v := resp.Header.Values("Sec-Websocket-Protocol"); len(v) > 0 {
+		sp = common.HexS(strings.Join(v, ","))
+	}
+	if resp.StatusCode == 101 {
+		// speak just enough of either WebSocket protocol for the handler to finish
+		if sp != "-" {
+			_ = rc.WriteWSFrame(2, []byte("\r\n"))
+			_ = rc.WriteWSFrame(2, []byte{0, 0, 0, 0, 0, 2, 8, 1})
+			_ = rc.WriteWSFrame(2, []byte{1})
+		}
+		rc.ReadWSFrames()
+	} else {
+		_, _ = io.ReadAll(resp.Body)
+	}
+	if seen == nil {
+		return fmt.Sprintf("rejected st=%d", resp.StatusCode)
+	}
+	rc.Close()
+	srv.Close()
+
+	httpCalls, grpcCalls, rq, _ := rt.Calls()
+	h, rqS := "grpcws", "-"
+	switch {
+	case httpCalls > 0:
+		rqS = fake.ShowMD(rq)
+		if _, kept := rq[sentinel]; kept {
+			h = "http"
+		} else {
+			h = "ws"
+		}
+	case grpcCalls > 0 && resp.StatusCode != 101 && strings.HasPrefix(resp.Header.Get("Content-Type"), "application/grpc-web"):
+		h = "grpcweb"
+	}
+	return fmt.Sprintf("seen=%s q=%s h=%s st=%d sp=%s rq=%s", fake.ShowMD(seen), fake.ShowMD(q), h, resp.StatusCode, sp, rqS)
+}
+
+var (
+	connVals  = []string{"Upgrade", "upgrade", "UPGRADE", "keep-alive, Upgrade", "Upgrade, keep-alive", "keep-alive,upgrade", "keep-alive", "close", "upgrade,", ",upgrade", "Upgradex", "x-upgrade", "up grade", "keep-alive ,\tUpgrade", "upgrade;q=1", "\"upgrade\""}
+	upgVals   = []string{"websocket", "WebSocket", "WEBSOCKET", "websocket, h2c", "h2c, websocket", "h2c,websocket", "h2c", "websockets", "web socket", "websocket/13", "TLS/1.0, websocket"}
+	protoVals = []string{"grpc-websockets", "grpc-websockets, foo", "foo, grpc-websockets", "foo,grpc-websockets", "foo", "GRPC-WebSockets", "grpc-websocketsx", "xgrpc-websockets", "grpc websockets", "graphql-ws"}
+	ctVals    = []string{"application/grpc-web", "application/grpc-web+proto", "application/grpc-web+json", "application/grpc-web-text", "Application/GRPC-Web+Proto", "APPLICATION/GRPC-WEB",
+		"application/grpc-web; charset=utf-8", "application/grpc-web+proto;x=y", "application/grpc-web ;x=y", "application/grpc-webx", "application/grpc", "application/grpc+proto", "application/json", "application/json; charset=utf-8", "text/plain", "application/grpc-we", "xapplication/grpc-web", "application/x-grpc-web"}
+	names = map[string][]string{
+		"Connection":             {"Connection", "connection", "CONNECTION"},
+		"Upgrade":                {"Upgrade", "upgrade"},
+		"Sec-WebSocket-Protocol": {"Sec-WebSocket-Protocol", "sec-websocket-protocol", "Sec-Websocket-Protocol"},
+		"Content-Type":           {"Content-Type", "content-type"},
+	}
+)
+
+// genHandshake: a complete opening handshake in which every list header still contains the right token
+// (so the upgrade is expected to succeed), written the way different clients write it.
+func genHandshake(r *rand.Rand) [][2]string {
+	conn := common.Pick(r, []string{"Upgrade", "upgrade", "keep-alive, Upgrade", "Upgrade, keep-alive", "keep-alive,upgrade", "UPGRADE"})
+	upg := common.Pick(r, []string{"websocket", "WebSocket", "WEBSOCKET"})
+	lines := [][2]string{{common.Pick(r, names["Connection"]), conn}, {common.Pick(r, names["Upgrade"]), upg},
+		{"Sec-WebSocket-Version", "13"}, {"Sec-WebSocket-Key", "dGhlIHNhbXBsZSBub25jZQ=="}}
+	switch r.Intn(4) {
+	case 0:
+		lines = append(lines, [2]string{common.Pick(r, names["Sec-WebSocket-Protocol"]), common.Pick(r, protoVals)})
+	case 1:
+		lines = append(lines, [2]string{"Sec-WebSocket-Protocol", common.Pick(r, []string{"grpc-websockets", "foo, grpc-websockets", "grpc-websockets,foo"})})
+	case 2:
+		lines = append(lines, [2]string{"Sec-WebSocket-Protocol", "foo"}, [2]string{"Sec-WebSocket-Protocol", "grpc-websockets"})
+	}
+	if r.Intn(4) == 0 {
+		lines = append(lines, [2]string{"Content-Type", common.Pick(r, ctVals)})
+	}
+	return lines
+}
+
+func genLines(r *rand.Rand) [][2]string {
+	var lines [][2]string
+	add := func(name string, pool []string, pNone, pMulti int) {
+		if r.Intn(100) < pNone {
+			return
+		}
+		n := 1
+		if r.Intn(100) < pMulti {
+			n = 2 + r.Intn(2)
+		}
+		for i := 0; i < n; i++ {
+			v := common.Pick(r, pool)
+			switch r.Intn(10) {
+			case 0:
+				v = " " + v + "\t"
+			case 1:
+				v = strings.ToUpper(v)
+			case 2:
+				v = ""
+			}
+			lines = append(lines, [2]string{common.Pick(r, names[name]), v})
+		}
+	}
+	add("Connection", connVals, 20, 20)
+	add("Upgrade", upgVals, 25, 15)
+	add("Sec-WebSocket-Protocol", protoVals, 45, 25)
+	add("Content-Type", ctVals, 35, 5)
+	if r.Intn(10) != 0 {
+		lines = append(lines, [2]string{"Sec-WebSocket-Version", "13"}, [2]string{"Sec-WebSocket-Key", "dGhlIHNhbXBsZSBub25jZQ=="})
+	}
+	r.Shuffle(len(lines), func(i, j int) { lines[i], lines[j] = lines[j], lines[i] })
+	return lines
+}
+
+var mdKeys = []string{"x-a", "X-B", "auth.token", "a_b", "A", "a", "", "bad key", "bad!", "ключ", "x-a]", "[x", "x-bin", "0", "k\x00"}
+var mdVals = []string{"v", "", "hello world", "tab\there", "nl\nx", "\x7f", "é", "~", " ", "a=b&c", "%41", "x]"}
+var plainKeys = []string{"a", "b", "_metadata", "_metadata[", "_metadata]", "_metadatax[a]", "x_metadata[a]", "_metadata[a]x", "meta[a]", "_METADATA[a]", "field.sub", "_metadata[a][b]", "_metadata[]"}
+var params = []string{"", "", "", "_metadata", "meta", "m", "_metadata[", "a]"}
+
+func genQuery(r *rand.Rand, param string) string {
+	p := param
+	if p == "" {
+		p = "_metadata"
+	}
+	var parts []string
+	for n := r.Intn(6); n > 0; n-- {
+		var k string
+		switch r.Intn(3) {
+		case 0:
+			k = common.Pick(r, plainKeys)
+		default:
+			k = p + "[" + common.Pick(r, mdKeys) + "]"
+		}
+		v := common.Pick(r, mdVals)
+		switch r.Intn(8) {
+		case 0:
+			parts = append(parts, k) // no '='
+		case 1:
+			parts = append(parts, k+"="+v) // unescaped
+		default:
+			parts = append(parts, url.QueryEscape(k)+"="+url.QueryEscape(v))
+		}
+	}
+	sep := "&"
+	return strings.Join(parts, sep)
+}
+
+func (Area) Gen(r *rand.Rand, tier string, emit func(string)) {
+	nDisp, nMdq := 500, 6000
+	if tier == "thorough" {
+		nDisp, nMdq = 15000, 300000
+	}
+	disp := func(method, q string, lines [][2]string) {
+		emit("disp " + method + " " + common.HexS(q) + " " + fake.ShowPairs(lines))
+	}
+	hs := fake.WSHandshake()
+	// what real clients send
+	disp("GET", "", nil)
+	disp("POST", "a=1", [][2]string{{"Content-Type", "application/json"}})
+	disp("GET", "_metadata[x-a]=1&b=2", hs)
+	disp("GET", "", append([][2]string{{"Connection", "keep-alive, Upgrade"}, {"Upgrade", "websocket"}}, hs[2:]...))                      // Firefox
+	disp("GET", "", append([][2]string{{"Connection", "keep-alive"}, {"Connection", "Upgrade"}, {"Upgrade", "websocket"}}, hs[2:]...))    // split lines
+	disp("GET", "", append(append([][2]string{}, hs...), [2]string{"Sec-WebSocket-Protocol", "grpc-websockets"}))                          // improbable-eng client
+	disp("GET", "", append(append([][2]string{}, hs...), [2]string{"Sec-WebSocket-Protocol", "foo, grpc-websockets"}))                     // list-valued offer
+	disp("GET", "", append(append([][2]string{}, hs...), [2]string{"Sec-WebSocket-Protocol", "foo"}, [2]string{"Sec-WebSocket-Protocol", "grpc-websockets"}))
+	disp("POST", "", [][2]string{{"Content-Type", "application/grpc-web+proto"}})
+	disp("POST", "", [][2]string{{"Content-Type", "application/grpc-web"}})
+	disp("POST", "", [][2]string{{"Content-Type", "Application/GRPC-Web+Proto"}})
+	disp("POST", "", [][2]string{{"Content-Type", "application/grpc-web; charset=utf-8"}})
+	disp("POST", "", [][2]string{{"Content-Type", "application/grpc"}})
+	disp("GET", "", [][2]string{{"Connection", "upgrade"}})
+	disp("GET", "", [][2]string{{"Upgrade", "websocket"}})
+	for i := 0; i < nDisp; i++ {
+		method := "GET"
+		if r.Intn(3) == 0 {
+			method = "POST"
+		}
+		q := ""
+		if r.Intn(2) == 0 {
+			q = genQuery(r, "")
+		}
+		if method == "GET" && r.Intn(3) == 0 {
+			disp(method, q, genHandshake(r))
+		} else {
+			disp(method, q, genLines(r))
+		}
+	}
+	mdq := func(param, q string) { emit("mdq " + common.HexS(param) + " " + common.HexS(q)) }
+	mdq("", "")
+	mdq("", "_metadata[a]=1&_metadata[A]=2&_metadata[a]=3")
+	mdq("", "_metadata[]=1&_metadata=2&_metadata[=3&_metadata]=4")
+	mdq("", "_metadata%5Bx-a%5D=v&b=1")
+	mdq("", "_metadata[k]=%01&_metadata[k]=ok&_metadata[bad key]=v")
+	for i := 0; i < nMdq; i++ {
+		param := common.Pick(r, params)
+		mdq(param, genQuery(r, param))
+	}
+}
